@@ -40,6 +40,9 @@ BASE_MODES = ["all", "some", "none", "itemerr", "raise", "raise_base", "raise_fa
 # defaults (the documented purpose of _cancel), or an item's on_computed callback giving its next sibling a fallback
 HOOKS = ["cancel_defaults", "sibling"]
 MODES = BASE_MODES + [m + "+" + h for m in ("all", "some", "none", "itemerr", "raise", "raise_base", "cancel_self") for h in HOOKS]
+# ... or a _cancel() hook that sends a follow-up request of the same kind ("discard what I asked for") through the
+# service's active batch: it must land on a FRESH batch, the cancelled one is no longer the active one by then
+MODES += [m + "+followup" for m in ("all", "none", "raise", "cancel_self")]
 
 
 def split_mode(mode):
@@ -78,6 +81,7 @@ def classes():
             self.mode, self.hook = split_mode(mode)
             self.body_runs = 0
             self.cancel_hooks = 0
+            self.followups = []
             self.active_during_body = None
             self.spawned = None
             self.flush_exc = None
@@ -97,6 +101,14 @@ def classes():
                 for i, it in enumerate(self.all_items):
                     if not it.is_computed():
                         it.set_value(("default", i))
+            elif self.hook == "followup":
+                fu = new_item(self.reg, "all")
+                self.followups.append((fu.batch is self, fu))
+                if fu.batch is not self:
+                    # served at once; the service is left without an active batch, as cancel() leaves it
+                    fu.batch.flush()
+                    if self.reg.get("active") is fu.batch:
+                        self.reg["active"] = None
 
         def _flush(self):
             self.body_runs += 1
@@ -369,6 +381,12 @@ def run_h(mode, seq):
                 if i < len(m.item_out) and o != m.item_out[i]:
                     viol.append(("item-outcome", {"item": i, "expected": m.item_out[i], "observed": o}))
                     break
+            if hook == "followup":
+                for on_self, fu in b.followups:
+                    reached.add("followup_request_from_cancel_hook")
+                    if on_self or not fu.is_computed() or fu.error() is not None:
+                        viol.append(("request-made-by-the-cancel-hook-did-not-join-a-fresh-batch", {"joined_the_cancelled_batch": on_self, "computed": fu.is_computed()}))
+                        break
             if m.body_runs:
                 if b.active_during_body:
                     viol.append(("batch-still-active-during-its-flush", {}))
